@@ -22,6 +22,7 @@
 #include <Eigen/Core>
 #include <Eigen/Geometry>
 #include <memory>
+#include <sstream>
 #include <valgrind/valgrind.h>
 #include "romea_core_common/geodesy/ENUConverter.hpp"
 #include "vh.hpp"
@@ -100,9 +101,29 @@ static double wrap_lon(double l)
   return clampd(l, -M_PI, M_PI);
 }
 
+static const double DENORM = 4.9406564584124654e-324;
+
+// exact special values random reals never produce: the all-zero anchor (equal to a value-initialised
+// GeodeticCoordinates), signed zeros, denormals, equal components, whole degrees, whole metres
+static Anchor special_anchor(vh::Rng & r)
+{
+  static const double Z[] = {0.0, -0.0, DENORM, -DENORM, 1e-310, -1e-310};
+  Anchor a;
+  switch (r.range(0, 4)) {
+    case 0: a = {0.0, 0.0, 0.0}; break;
+    case 1: a = {Z[r.range(0, 5)], Z[r.range(0, 5)], r.coin() ? Z[r.range(0, 5)] : (double)r.range(-500, 9000)}; break;
+    case 2: {double v = r.uni(-LAT_LIM, LAT_LIM); a = {v, v, r.coin() ? v : 0.0}; break;}        // equal components
+    case 3: a = {(double)r.range(-85, 85) * (M_PI / 180.0), (double)r.range(-180, 180) * (M_PI / 180.0), (double)r.range(-500, 9000)}; break;
+    default: a = {(double)r.range(-1, 1), (double)r.range(-3, 3), (double)r.range(-500, 9000)};    // whole radians
+  }
+  a.lat = clampd(a.lat, -LAT_LIM, LAT_LIM); a.lon = clampd(a.lon, -M_PI, M_PI);
+  return a;
+}
+
 static Anchor draw_anchor(vh::Rng & r)
 {
   Anchor a;
+  if (r.coin(0.08)) {return special_anchor(r);}
   switch (r.range(0, 7)) {
     case 3: a.lat = r.sign() * LAT_LIM; break;
     case 4: a.lat = r.sign() * (LAT_LIM - r.logu(1e-12, 1e-2)); break;
@@ -144,9 +165,24 @@ static Anchor near_anchor(vh::Rng & r, const Anchor & p)
   return a;
 }
 
+static Eigen::Vector3d special_local(vh::Rng & r)
+{
+  static const double Z[] = {0.0, -0.0, DENORM, -DENORM, 1e-310, -1e-310};
+  switch (r.range(0, 3)) {
+    case 0: return Eigen::Vector3d(Z[r.range(0, 5)], Z[r.range(0, 5)], Z[r.range(0, 5)]);                  // signed zeros, denormals
+    case 1: {double d = r.sign() * (r.coin() ? (double)r.range(0, 10000) : r.logu(1e-6, 1e4)); return Eigen::Vector3d(d, d, d);}  // equal components
+    case 2: return Eigen::Vector3d((double)r.range(-70000, 70000), (double)r.range(-70000, 70000), (double)r.range(-10000, 10000));  // whole metres
+    default: {                                                                                               // exact powers of two
+        return Eigen::Vector3d(r.sign() * std::ldexp(1.0, (int)r.range(-30, 16)), r.sign() * std::ldexp(1.0, (int)r.range(-30, 15)),
+                 r.sign() * std::ldexp(1.0, (int)r.range(-30, 13)));
+      }
+  }
+}
+
 static Eigen::Vector3d draw_local(vh::Rng & r)
 {
-  switch (r.range(0, 9)) {
+  switch (r.range(0, 10)) {
+    case 10: return special_local(r);
     case 0: return Eigen::Vector3d::Zero();
     case 1: {
         int ax = (int)r.range(0, 2);
@@ -174,14 +210,34 @@ enum Op
 {
   OP_CTOR_DEFAULT, OP_CTOR_ANCHOR, OP_COPY, OP_SET_ANCHOR, OP_SET_ANCHOR_ALIAS, OP_RESET, OP_ENU_GEO, OP_ENU_WGS,
   OP_ENU_ECEF, OP_ECEF, OP_WGS84, OP_IS_ANCHORED, OP_TRANSFORM, OP_PAIR, OP_ABOVE, OP_ORIGIN,
-  OP_LONG_SET_RUN, OP_LONG_CONV_RUN, OP_RUN_ANCHOR, OP_N
+  OP_LONG_SET_RUN, OP_LONG_CONV_RUN, OP_RUN_ANCHOR, OP_VALUE_SEM, OP_FAR, OP_REPEAT, OP_LONG_RESET_RUN, OP_N
 };
 static const char * OP_NAME[] = {"ENUConverter()", "ENUConverter(anchor)", "copy", "setAnchor", "setAnchor(getAnchor())", "reset",
   "toENU(geodetic)", "toENU(wgs84)", "toENU(ecef)", "toECEF", "toWGS84", "isAnchored", "getEnuToEcefTransform",
   "pair_distance", "above_anchor", "anchor_to_origin",
-  "setAnchor_run[calls_done,calls_total,anchors]", "conversion_run[calls_done,calls_total,-]", "run_anchor"};
+  "setAnchor_run[calls_done,calls_total,anchors]", "conversion_run[calls_done,calls_total,-]", "run_anchor",
+  "value_semantics[variant]", "far_point", "repeat_after_neighbours[kind]", "reset_anchor_cycle_run[cycles_done,cycles_total,anchors]"};
 
 struct OpRec {int code; double a[3]; bool anchored_after;};
+
+// A result bound exactly as the signature returns it (a value stays a value, a reference stays a
+// reference into the object) together with the values it had when the call returned.
+struct Triple {double v[3];};
+static Triple triple(const Eigen::Vector3d & x) {return {{x[0], x[1], x[2]}};}
+static Triple triple(const GeodeticCoordinates & g) {return {{g.latitude, g.longitude, g.altitude}};}
+static bool same_bits(const Triple & a, const Triple & b) {return std::memcmp(a.v, b.v, sizeof a.v) == 0;}
+struct KeptBase
+{
+  const char * api = ""; Triple at_call; uint64_t op_index = 0;
+  virtual ~KeptBase() {}
+  virtual Triple now() const = 0;
+};
+template<class R> struct Kept : KeptBase
+{
+  R r;
+  template<class Fn> explicit Kept(Fn && f) : r(f()) {at_call = triple(r);}
+  Triple now() const override {return triple(r);}
+};
 
 struct Runner
 {
@@ -205,6 +261,11 @@ struct Runner
   bool long_mode = false;           // inside a long run only the latest operation is kept in the trace
   size_t long_marker = 0;
   uint64_t long_done = 0;
+  // result stability: results of the object under test, kept as returned, re-read later
+  std::vector<std::unique_ptr<KeptBase>> kept;
+  // frame as first read after the last state change; conversions must not alter it
+  uint64_t epoch = 1, snap_epoch = 0, kept_next = 0;
+  Eigen::Matrix4d snap_T;
 
   Runner(vh::Ctx & c_, vh::Rng & r_, uint64_t idx_) : c(c_), r(r_), idx(idx_) {}
 
@@ -243,7 +304,7 @@ struct Runner
     cur_op = code;
     ++n_ops;
     if (long_mode) {trace.resize(long_marker + 1); trace[long_marker].a[0] = (double)long_done;}
-    if ((code >= OP_ENU_GEO && code <= OP_WGS84) || (code >= OP_PAIR && code <= OP_ORIGIN)) {++conv_on_object;}
+    if ((code >= OP_ENU_GEO && code <= OP_WGS84) || (code >= OP_PAIR && code <= OP_ORIGIN) || code == OP_FAR || code == OP_REPEAT) {++conv_on_object;}
     trace.push_back({code, {a0, a1, a2}, false});
     hash = vh::hash_addi(hash, (uint64_t)code);
     hash = vh::hash_add(vh::hash_add(vh::hash_add(hash, a0), a1), a2);
@@ -259,7 +320,7 @@ struct Runner
       if (anchored) {++n_reanchor; c.cat("reanchor_without_reset");}
       if (dist_prev_anchor < 1.0 && dist_prev_anchor > 0) {c.cat("reanchor_within_1m");}
     }
-    anchored = true; anc = a; fr = make_frame(a.lat, a.lon, a.alt); ++n_anchorings; ++sets_since_unanchored;
+    anchored = true; anc = a; fr = make_frame(a.lat, a.lon, a.alt); ++n_anchorings; ++sets_since_unanchored; ++epoch;
     pool.push_back(a);
     if (std::fabs(a.lon) == M_PI) {c.cat("anchor_lon_exact_pi");}
     if (M_PI - std::fabs(a.lon) < 1e-3) {c.cat("anchor_antimeridian_near");}
@@ -284,7 +345,45 @@ struct Runner
     bool got = conv->isAnchored();
     if (!c.expect("state.is_anchored", got == anchored, "state_flag", P(), W())) {dead = true;}
     if (!trace.empty()) {trace.back().anchored_after = got;}
+    if (dead) {return;}
+    check_kept();
+    if (anchored) {
+      // between two state changes the frame and the anchor must stay bit-identical whatever is converted
+      const Eigen::Matrix4d & M = conv->getEnuToEcefTransform().matrix();
+      const GeodeticCoordinates & ga = conv->getAnchor();
+      if (snap_epoch != epoch) {snap_T = M; snap_epoch = epoch;} else {
+        c.expect("stability.frame_untouched_by_conversions",
+          std::memcmp(M.data(), snap_T.data(), sizeof(double) * 16) == 0 && ga.latitude == anc.lat && ga.longitude == anc.lon &&
+          ga.altitude == anc.alt, "result_unstable", P(), [&]() {
+            return vh::J().raw("case", witness()).raw("T_now", vh::jmat(M)).raw("T_first_read", vh::jmat(snap_T)).str();
+          });
+      }
+    }
   }
+
+  // ---- result stability ------------------------------------------------------------------------
+  // calls f() (a call on the object under test), keeps the result bound exactly as returned
+  template<class Fn> KeptBase & hold(const char * api, Fn && f)
+  {
+    using R = decltype(f());
+    auto h = std::make_unique<Kept<R>>(f);
+    h->api = api; h->op_index = (uint64_t)op_index;
+    KeptBase & ref = *h;
+    if (kept.size() < 6) {kept.push_back(std::move(h));} else {kept[kept_next++ % 6] = std::move(h);}
+    return ref;
+  }
+  static Eigen::Vector3d vec(const Triple & t) {return Eigen::Vector3d(t.v[0], t.v[1], t.v[2]);}
+  void check_kept()
+  {
+    const KeptBase * bad = nullptr;
+    for (auto & h : kept) {if (!same_bits(h->now(), h->at_call)) {bad = h.get(); break;}}
+    c.expect("stability.result_kept", bad == nullptr, "result_unstable", P(), [&]() {
+        return vh::J().raw("case", witness()).s("api", bad->api).f("returned_by_op_index", bad->op_index)
+               .raw("at_call", vh::jvec(vec(bad->at_call))).raw("now", vh::jvec(vec(bad->now()))).str();
+      });
+  }
+  // the object under test is about to be destroyed / replaced: last look at what it returned
+  void retire_kept() {if (!kept.empty()) {check_kept(); kept.clear();}}
 
   void check_frame()
   {
@@ -328,11 +427,16 @@ struct Runner
   }
   ENUConverter fresh_conv() const {return ENUConverter(romea::core::makeGeodeticCoordinates(anc.lat, anc.lon, anc.alt));}
 
-  GeodeticCoordinates lib_toWGS84(const ENUConverter & cv, const Eigen::Vector3d & p, bool overload3)
+  GeodeticCoordinates lib_toWGS84(const ENUConverter & cv, const Eigen::Vector3d & p, bool overload3, bool keep)
   {
     auto & lw = vh::loopwatch();
     lw.reset_case();
-    GeodeticCoordinates g = overload3 ? cv.toWGS84(p[0], p[1], p[2]) : cv.toWGS84(p);
+    GeodeticCoordinates g;
+    if (keep) {
+      KeptBase & h = overload3 ? hold("toWGS84(x,y,z)", [&]()->decltype(auto) {return cv.toWGS84(p[0], p[1], p[2]);}) :
+        hold("toWGS84", [&]()->decltype(auto) {return cv.toWGS84(p);});
+      g.latitude = h.at_call.v[0]; g.longitude = h.at_call.v[1]; g.altitude = h.at_call.v[2];
+    } else {g = overload3 ? cv.toWGS84(p[0], p[1], p[2]) : cv.toWGS84(p);}
     c.maxi("ecef_loop_iterations", (double)lw.case_max);
     if (lw.tripped) {c.violation("nontermination", params(), witness());}
     return g;
@@ -367,17 +471,21 @@ struct Runner
   }
 
   // ---- operations --------------------------------------------------------------------------
+  static GeodeticCoordinates geo(const Anchor & a) {return romea::core::makeGeodeticCoordinates(a.lat, a.lon, a.alt);}
+
   void op_ctor_default()
   {
     rec(OP_CTOR_DEFAULT);
+    retire_kept();
     conv = std::make_unique<ENUConverter>();
-    anchored = false; sets_since_unanchored = 0; conv_on_object = 0;
+    anchored = false; sets_since_unanchored = 0; conv_on_object = 0; ++epoch;
   }
   void op_ctor_anchor()
   {
     Anchor a = next_anchor();
     rec(OP_CTOR_ANCHOR, a.lat, a.lon, a.alt);
-    conv = std::make_unique<ENUConverter>(romea::core::makeGeodeticCoordinates(a.lat, a.lon, a.alt));
+    retire_kept();
+    conv = std::make_unique<ENUConverter>(geo(a));
     anchored = false;                 // a new object: not a re-anchoring of the old one
     sets_since_unanchored = 0; conv_on_object = 0;
     model_anchor(a);
@@ -386,20 +494,35 @@ struct Runner
   void op_copy()
   {
     rec(OP_COPY);
+    retire_kept();
     conv = std::make_unique<ENUConverter>(*conv);
+    ++epoch;
     if (anchored) {check_frame();}
   }
   void op_set_anchor()
   {
     Anchor a = next_anchor();
     rec(OP_SET_ANCHOR, a.lat, a.lon, a.alt);
-    conv->setAnchor(romea::core::makeGeodeticCoordinates(a.lat, a.lon, a.alt));
+    switch (r.range(0, 3)) {
+      case 0: {GeodeticCoordinates lv = geo(a); conv->setAnchor(lv); c.cat("lvalue_arguments"); break;}
+      case 1: {GeodeticCoordinates lv = geo(a); conv->setAnchor(std::move(lv)); c.cat("rvalue_arguments"); break;}
+      case 2: {
+          // the argument is a reference into a sibling converter, which then dies
+          auto sib = std::make_unique<ENUConverter>(geo(a));
+          conv->setAnchor(sib->getAnchor());
+          sib->reset(); sib.reset();
+          c.cat("argument_aliasing");
+          break;
+        }
+      default: conv->setAnchor(geo(a));
+    }
     model_anchor(a);
     check_frame();
   }
   void op_set_anchor_alias()
   {
     rec(OP_SET_ANCHOR_ALIAS, anc.lat, anc.lon, anc.alt);
+    c.cat("argument_aliasing");
     conv->setAnchor(conv->getAnchor());
     model_anchor(anc);
     check_frame();
@@ -408,18 +531,28 @@ struct Runner
   {
     rec(OP_RESET);
     conv->reset();
-    anchored = false; ++n_resets; sets_since_unanchored = 0;
+    anchored = false; ++n_resets; sets_since_unanchored = 0; ++epoch;
   }
 
   void op_enu_geodetic()
   {
     ++n_conv;
     if (!anchored) {
-      Anchor a = next_anchor();
+      const bool own = r.coin(0.2);
+      Anchor a;
+      if (own) {
+        // aliasing: the converter's own (stale or value-initialised) anchor, by reference, is the point
+        // to convert; the expected anchor is its VALUE at call time
+        const GeodeticCoordinates & g0 = conv->getAnchor();
+        a = {g0.latitude, g0.longitude, g0.altitude};
+      } else {a = next_anchor();}
       rec(OP_ENU_GEO, a.lat, a.lon, a.alt);
       c.cat("auto_anchor_geodetic");
       if (n_resets > 0) {c.cat("auto_anchor_after_reset");}
-      Eigen::Vector3d got = conv->toENU(romea::core::makeGeodeticCoordinates(a.lat, a.lon, a.alt));
+      if (own) {c.cat("argument_aliasing"); c.cat("auto_anchor_on_own_anchor_reference");}
+      KeptBase & h = own ? hold("toENU(geodetic)", [&]()->decltype(auto) {return conv->toENU(conv->getAnchor());}) :
+        hold("toENU(geodetic)", [&]()->decltype(auto) {return conv->toENU(geo(a));});
+      Eigen::Vector3d got = vec(h.at_call);
       model_anchor(a);
       cur_p.setZero();
       c.expect_le("origin.auto_anchor_point_m", got.norm(), 1e-3, "anchor_not_origin", P(), W(got));
@@ -431,11 +564,16 @@ struct Runner
     GeodeticCoordinates g = draw_geodetic_near(false, l);
     rec(OP_ENU_GEO, g.latitude, g.longitude, g.altitude);
     cur_p = toE(l);
-    Eigen::Vector3d got = conv->toENU(g);
+    const bool rv = r.coin(0.3);
+    GeodeticCoordinates gm = g;
+    if (rv) {c.cat("rvalue_arguments");}
+    KeptBase & h = rv ? hold("toENU(geodetic)", [&]()->decltype(auto) {return conv->toENU(std::move(gm));}) :
+      hold("toENU(geodetic)", [&]()->decltype(auto) {return conv->toENU(g);});
+    Eigen::Vector3d got = vec(h.at_call);
     c.expect_le("model.toENU_geodetic_m", norm(toV3(got) - l), 2e-3L, "model_mismatch", P(), W(got));
     ENUConverter f = fresh_conv();
     check_fresh(got, f.toENU(g));
-    GeodeticCoordinates back = lib_toWGS84(*conv, got, false);
+    GeodeticCoordinates back = lib_toWGS84(*conv, got, false, false);
     c.expect_le("inverse.geodetic_enu_geodetic_m", geodetic_gap_m(back, g), 1e-3L, "not_inverse", P(), W(got));
     Eigen::Vector3d viaEcef = conv->toENU(toE(F(g.latitude, g.longitude, g.altitude)));
     c.expect_le("inverse.geodetic_vs_ecef_path_m", (viaEcef - got).norm(), 1e-3, "not_inverse", P(), W(got));
@@ -449,7 +587,8 @@ struct Runner
       rec(OP_ENU_WGS, a.lat, a.lon, 0);
       c.cat("auto_anchor_wgs84");
       if (n_resets > 0) {c.cat("auto_anchor_after_reset");}
-      Eigen::Vector3d got = conv->toENU(romea::core::makeWGS84Coordinates(a.lat, a.lon));
+      KeptBase & h = hold("toENU(wgs84)", [&]()->decltype(auto) {return conv->toENU(romea::core::makeWGS84Coordinates(a.lat, a.lon));});
+      Eigen::Vector3d got = vec(h.at_call);
       // the statement fixes nothing about the height of a frame anchored on an altitude-less point:
       // the model adopts the altitude the converter reports (noted, not alarmed on)
       a.alt = conv->getAnchor().altitude;
@@ -479,7 +618,15 @@ struct Runner
     rec(OP_ENU_WGS, g.latitude, g.longitude, 0);
     cur_p = toE(l);
     WGS84Coordinates w = romea::core::makeWGS84Coordinates(g.latitude, g.longitude);
-    Eigen::Vector3d got = conv->toENU(w);
+    const int how = (int)r.range(0, 3);
+    WGS84Coordinates wm = w;
+    if (how == 1) {c.cat("rvalue_arguments");}
+    KeptBase & h = how == 1 ? hold("toENU(wgs84)", [&]()->decltype(auto) {return conv->toENU(std::move(wm));}) :
+      how == 2 ? hold("toENU(wgs84)", [&]()->decltype(auto) {                 // base sub-object of a geodetic point
+          return conv->toENU(static_cast<const WGS84Coordinates &>(g));
+        }) :
+      hold("toENU(wgs84)", [&]()->decltype(auto) {return conv->toENU(w);});
+    Eigen::Vector3d got = vec(h.at_call);
     c.expect_le("model.toENU_wgs84_m", norm(toV3(got) - l), 2e-3L, "model_mismatch", P(), W(got));
     ENUConverter f = fresh_conv();
     check_fresh(got, f.toENU(w));
@@ -493,7 +640,20 @@ struct Runner
     cur_p = p;
     Eigen::Vector3d X = toE(to_ecef(fr, toV3(p)));
     V3 expect = to_local(fr, toV3(X));
-    Eigen::Vector3d got = conv->toENU(X);
+    const ENUConverter & cc = *conv;
+    const int how = (int)r.range(0, 5);
+    Eigen::Vector3d got;
+    if (how == 0) {
+      // result assigned to the very object passed as argument
+      Eigen::Vector3d v = X; v = cc.toENU(v); got = v;
+      c.cat("argument_aliasing");
+    } else {
+      Eigen::Vector3d xm = X;
+      if (how == 1) {c.cat("rvalue_arguments");}
+      KeptBase & h = how == 1 ? hold("toENU(ecef)", [&]()->decltype(auto) {return cc.toENU(std::move(xm));}) :
+        hold("toENU(ecef)", [&]()->decltype(auto) {return cc.toENU(X);});
+      got = vec(h.at_call);
+    }
     c.expect_le("model.toENU_ecef_m", norm(toV3(got) - expect), 1e-3L, "model_mismatch", P(), W(got));
     ENUConverter f = fresh_conv();
     check_fresh(got, static_cast<const ENUConverter &>(f).toENU(X));
@@ -509,7 +669,19 @@ struct Runner
     rec(OP_ECEF, p[0], p[1], p[2]);
     cur_p = p;
     if (ov) {c.cat("scalar_overloads");}
-    Eigen::Vector3d got = ov ? conv->toECEF(p[0], p[1], p[2]) : conv->toECEF(p);
+    const int how = ov ? 3 : (int)r.range(0, 5);
+    Eigen::Vector3d got;
+    if (how == 0) {
+      Eigen::Vector3d v = p; v = conv->toECEF(v); got = v;
+      c.cat("argument_aliasing");
+    } else {
+      Eigen::Vector3d pm = p;
+      if (how == 1) {c.cat("rvalue_arguments");}
+      KeptBase & h = ov ? hold("toECEF(x,y,z)", [&]()->decltype(auto) {return conv->toECEF(p[0], p[1], p[2]);}) :
+        how == 1 ? hold("toECEF", [&]()->decltype(auto) {return conv->toECEF(std::move(pm));}) :
+        hold("toECEF", [&]()->decltype(auto) {return conv->toECEF(p);});
+      got = vec(h.at_call);
+    }
     c.expect_le("model.toECEF_m", norm(toV3(got) - to_ecef(fr, toV3(p))), 1e-3L, "model_mismatch", P(), W(got));
     ENUConverter f = fresh_conv();
     check_fresh(got, f.toECEF(p));
@@ -525,7 +697,7 @@ struct Runner
     rec(OP_WGS84, p[0], p[1], p[2]);
     cur_p = p;
     if (ov) {c.cat("scalar_overloads");}
-    GeodeticCoordinates g = lib_toWGS84(*conv, p, ov);
+    GeodeticCoordinates g = lib_toWGS84(*conv, p, ov, true);
     Eigen::Vector3d gv(g.latitude, g.longitude, g.altitude);
     bool fin = std::isfinite(g.latitude) && std::isfinite(g.longitude) && std::isfinite(g.altitude);
     if (!c.expect("toWGS84.finite_in_range", fin && std::fabs(g.latitude) <= M_PI / 2 && std::fabs(g.longitude) <= M_PI,
@@ -533,7 +705,7 @@ struct Runner
     V3 Xo = to_ecef(fr, toV3(p));
     c.expect_le("model.toWGS84_m", norm(F(g.latitude, g.longitude, g.altitude) - Xo), 2e-3L, "model_mismatch", P(), W(gv));
     ENUConverter f = fresh_conv();
-    GeodeticCoordinates gf = lib_toWGS84(f, p, false);
+    GeodeticCoordinates gf = lib_toWGS84(f, p, false, false);
     LD gap = geodetic_gap_m(g, gf);
     c.expect_le("fresh.same_as_new_converter_m", gap, 1e-9L, "stale_frame", P(), W(gv));
     Eigen::Vector3d back = conv->toENU(g);
@@ -544,7 +716,8 @@ struct Runner
   {
     ++n_conv;
     Eigen::Vector3d p1 = draw_local(r), p2;
-    if (r.coin()) {p2 = draw_local(r);} else {
+    const int pk = (int)r.range(0, 9);
+    if (pk == 0) {p2 = p1; c.cat("pair_same_point_twice");} else if (pk <= 4) {p2 = draw_local(r);} else {
       // a neighbour 1 mm .. 1 km away, kept inside the box
       Eigen::Vector3d d(r.normal(), r.normal(), r.normal());
       p2 = p1 + d * (r.logu(1e-3, 1e3) / std::max(d.norm(), 1e-9));
@@ -578,12 +751,14 @@ struct Runner
   {
     ++n_conv;
     double h = r.coin(0.2) ? r.sign() * VERT_MAX : (r.coin() ? r.uni(-VERT_MAX, VERT_MAX) : r.sign() * r.logu(1e-3, VERT_MAX));
+    if (r.coin(0.1)) {h = (double)r.range(-10000, 10000);}            // whole metres, 0 included
     rec(OP_ABOVE, h);
     cur_p = Eigen::Vector3d(0, 0, h);
     // altitude anc.alt + h is rounded: the expected third coordinate is the rounded difference
     double alt = anc.alt + h;
     LD hh = (LD)alt - (LD)anc.alt;
-    Eigen::Vector3d got = conv->toENU(romea::core::makeGeodeticCoordinates(anc.lat, anc.lon, alt));
+    KeptBase & k = hold("toENU(geodetic)", [&]()->decltype(auto) {return conv->toENU(romea::core::makeGeodeticCoordinates(anc.lat, anc.lon, alt));});
+    Eigen::Vector3d got = vec(k.at_call);
     LD err = sqrtl((LD)got[0] * got[0] + (LD)got[1] * got[1] + ((LD)got[2] - hh) * ((LD)got[2] - hh));
     c.expect_le("above.point_h_above_anchor_m", err, 1e-3L, "up_not_vertical", P(), W(got));
   }
@@ -591,21 +766,148 @@ struct Runner
   void op_origin()
   {
     ++n_conv;
-    int k = (int)r.range(0, 3);
+    int k = (int)r.range(0, 5);
     rec(OP_ORIGIN, k);
     cur_p.setZero();
     Eigen::Vector3d got;
-    if (k == 0) {got = conv->toENU(romea::core::makeGeodeticCoordinates(anc.lat, anc.lon, anc.alt));} else if (k == 1) {
+    const ENUConverter & cc = *conv;
+    if (k == 0) {got = conv->toENU(geo(anc));} else if (k == 1) {
       got = conv->toENU(romea::core::makeWGS84Coordinates(anc.lat, anc.lon));
     } else if (k == 2) {
-      got = static_cast<const ENUConverter &>(*conv).toENU(toE(fr.X0));
-    } else {got = conv->toENU(conv->getAnchor());}
+      got = cc.toENU(toE(fr.X0));
+    } else if (k == 3) {got = conv->toENU(conv->getAnchor()); c.cat("argument_aliasing");} else if (k == 4) {
+      // the translation read from the converter's own transform, handed straight back
+      got = cc.toENU(cc.getEnuToEcefTransform().translation());
+      c.cat("argument_aliasing");
+    } else {
+      // altitude-less overload on the base sub-object of the converter's own anchor
+      got = conv->toENU(static_cast<const WGS84Coordinates &>(conv->getAnchor()));
+      c.cat("argument_aliasing");
+    }
     c.expect_le("origin.anchor_maps_to_zero_m", got.norm(), 1e-3, "anchor_not_origin", P(), W(got));
     if (k == 0) {
-      GeodeticCoordinates g = lib_toWGS84(*conv, Eigen::Vector3d::Zero(), false);
-      c.expect_le("origin.zero_maps_to_anchor_m", geodetic_gap_m(g, romea::core::makeGeodeticCoordinates(anc.lat, anc.lon, anc.alt)),
-        1e-3L, "anchor_not_origin", P(), W(got));
+      GeodeticCoordinates g = lib_toWGS84(*conv, Eigen::Vector3d::Zero(), false, true);
+      c.expect_le("origin.zero_maps_to_anchor_m", geodetic_gap_m(g, geo(anc)), 1e-3L, "anchor_not_origin", P(), W(got));
     }
+  }
+
+  // copy / move construction and assignment, self-assignment; the source is overwritten and destroyed,
+  // the history goes on with the copy; and: a copy that is used and destroyed leaves the source alone
+  void op_value_semantics()
+  {
+    const int k = (int)r.range(0, 5);
+    rec(OP_VALUE_SEM, k);
+    c.cat("value_semantics");
+    static const char * VN[] = {"value_copy_construct", "value_copy_assign", "value_move_construct", "value_move_assign",
+      "value_self_assign", "value_source_unaffected_by_copy"};
+    c.cat(VN[k]);
+    retire_kept();
+    const bool was = conv->isAnchored();
+    const Eigen::Matrix4d before = conv->getEnuToEcefTransform().matrix();
+    const GeodeticCoordinates ga = conv->getAnchor();
+    auto other_state = [&](ENUConverter & t) {
+        int m = (int)r.range(0, 2);
+        if (m >= 1) {t.setAnchor(geo(draw_anchor(r)));}
+        if (m == 2) {t.reset();}
+      };
+    auto spoil = [&](ENUConverter & src) {
+        if (r.coin()) {src.reset();} else {src.setAnchor(geo(draw_anchor(r)));}
+        if (r.coin()) {src.toENU(geo(draw_anchor(r)));}
+      };
+    switch (k) {
+      case 0: {auto nu = std::make_unique<ENUConverter>(*conv); spoil(*conv); conv = std::move(nu); break;}
+      case 1: {auto nu = std::make_unique<ENUConverter>(); other_state(*nu); *nu = *conv; spoil(*conv); conv = std::move(nu); break;}
+      case 2: {auto nu = std::make_unique<ENUConverter>(std::move(*conv)); conv = std::move(nu); break;}
+      case 3: {auto nu = std::make_unique<ENUConverter>(); other_state(*nu); *nu = std::move(*conv); conv = std::move(nu); break;}
+      case 4: {ENUConverter & self = *conv; *conv = self; break;}
+      default: {
+          ENUConverter b(*conv);
+          if (was) {
+            Eigen::Vector3d p = draw_local(r);
+            Eigen::Vector3d x1 = b.toECEF(p), x2 = conv->toECEF(p);
+            c.expect("value.copy_converts_like_source", same_bits(triple(x1), triple(x2)), "value_semantics", P(), W(x1));
+          }
+          spoil(b);
+        }
+    }
+    if (k <= 3) {++epoch;}      // a new object; for k = 4, 5 the frame snapshot must still match bit for bit
+    const Eigen::Matrix4d & M = conv->getEnuToEcefTransform().matrix();
+    const GeodeticCoordinates & gb = conv->getAnchor();
+    bool same = conv->isAnchored() == was;
+    if (was) {
+      same = same && std::memcmp(M.data(), before.data(), sizeof(double) * 16) == 0 && gb.latitude == ga.latitude &&
+        gb.longitude == ga.longitude && gb.altitude == ga.altitude;
+    }
+    c.expect("value.copy_equals_source", same, "value_semantics", P(), [&]() {
+        return vh::J().raw("case", witness()).f("variant", k).raw("T_source", vh::jmat(before)).raw("T_now", vh::jmat(M)).str();
+      });
+    if (anchored && conv->isAnchored()) {check_frame();}
+  }
+
+  // beyond the quantifier's 100 km box (outside the statement's accuracy promise): the frame transform is
+  // still a rigid map, so the two affine conversions must stay finite and exact to rounding RELATIVE to
+  // the magnitude, up to 1e300 m (the unchanged code stays finite up to about 5e307)
+  void op_far()
+  {
+    ++n_conv;
+    double m = r.coin() ? r.logu(1e5, 1e9) : r.logu(1e9, 1e300);
+    Eigen::Vector3d d(r.normal(), r.normal(), r.normal());
+    Eigen::Vector3d p = d * (m / std::max(d.norm(), 1e-9));
+    if (r.coin(0.2)) {int ax = (int)r.range(0, 2); p.setZero(); p[ax] = r.sign() * m;}
+    rec(OP_FAR, p[0], p[1], p[2]);
+    c.cat("far_points");
+    cur_p = p;
+    const LD mag = norm(toV3(p)) + EARTH_MAG;
+    const ENUConverter & cc = *conv;
+    Eigen::Vector3d X = cc.toECEF(p);
+    bool fin = std::isfinite(X[0]) && std::isfinite(X[1]) && std::isfinite(X[2]);
+    if (!c.expect("far.finite", fin, "far_point_mismatch", P(), W(X))) {return;}
+    c.expect_le("far.toECEF_vs_model_rel", norm(toV3(X) - to_ecef(fr, toV3(p))), 1e-12L * mag, "far_point_mismatch", P(), W(X));
+    Eigen::Vector3d back = cc.toENU(X);
+    c.expect_le("far.enu_ecef_enu_rel", norm(toV3(back) - toV3(p)), 64 * EPS * mag, "far_point_mismatch", P(), W(back));
+    Eigen::Vector3d Xf = toE(to_ecef(fr, toV3(p)));
+    Eigen::Vector3d q = cc.toENU(Xf);
+    c.expect_le("far.toENU_vs_model_rel", norm(toV3(q) - to_local(fr, toV3(Xf))), 1e-12L * mag, "far_point_mismatch", P(), W(q));
+  }
+
+  // the same conversion before and after neighbouring facilities have been used (sibling converters,
+  // the ECEF converter with another ellipsoid, stream formatting of coordinates): bit-identical
+  Triple observe(int k, const GeodeticCoordinates & g, const Eigen::Vector3d & X, const Eigen::Vector3d & p)
+  {
+    const ENUConverter & cc = *conv;
+    switch (k) {
+      case 0: return triple(conv->toENU(g));
+      case 1: return triple(cc.toENU(X));
+      case 2: return triple(cc.toECEF(p));
+      default: return triple(lib_toWGS84(cc, p, false, false));
+    }
+  }
+  void op_repeat()
+  {
+    ++n_conv;
+    const int k = (int)r.range(0, 3);
+    Eigen::Vector3d p = draw_local(r);
+    V3 l;
+    GeodeticCoordinates g = draw_geodetic_near(false, l);
+    Eigen::Vector3d X = toE(to_ecef(fr, toV3(p)));
+    rec(OP_REPEAT, k, p[0], p[1]);
+    c.cat("neighbour_interference");
+    cur_p = p;
+    const Triple a = observe(k, g, X, p);
+    {
+      ENUConverter sib(geo(draw_anchor(r)));
+      sib.toECEF(p); static_cast<const ENUConverter &>(sib).toENU(X); sib.toWGS84(p); sib.toENU(sib.getAnchor());
+      sib.reset(); sib.toENU(romea::core::makeWGS84Coordinates(g.latitude, g.longitude));
+      ENUConverter sib2; sib2 = sib; sib2.setAnchor(g);
+      static_cast<const ENUConverter &>(sib2).toENU(X); sib2.toECEF(p); sib2.toWGS84(p); sib2.toENU(g);
+      romea::core::ECEFConverter e1, e2(romea::core::EarthEllipsoid(6378249.2, 6356515.0));
+      e1.toWGS84(e1.toECEF(g)); e2.toWGS84(e2.toECEF(g));
+      std::ostringstream os; os << g << static_cast<const WGS84Coordinates &>(g) << 1.0 / 3.0;
+    }
+    const Triple b = observe(k, g, X, p);
+    c.expect("interference.same_result_after_neighbours", same_bits(a, b), "interference", P(), [&]() {
+        return vh::J().raw("case", witness()).f("kind", k).raw("first", vh::jvec(vec(a))).raw("second", vh::jvec(vec(b))).str();
+      });
   }
 
   // ---- driver --------------------------------------------------------------------------------
@@ -629,6 +931,9 @@ struct Runner
       case OP_PAIR: op_pair(); break;
       case OP_ABOVE: op_above(); break;
       case OP_ORIGIN: op_origin(); break;
+      case OP_VALUE_SEM: op_value_semantics(); break;
+      case OP_FAR: op_far(); break;
+      case OP_REPEAT: op_repeat(); break;
     }
     if (!dead) {check_state();}
     ++op_index;
@@ -637,7 +942,8 @@ struct Runner
   // ---- very long runs on one object -----------------------------------------------------------
   void all_oracles_once()
   {
-    static const int C[] = {OP_ENU_GEO, OP_ENU_WGS, OP_ENU_ECEF, OP_ECEF, OP_WGS84, OP_PAIR, OP_ABOVE, OP_ORIGIN, OP_TRANSFORM};
+    static const int C[] = {OP_ENU_GEO, OP_ENU_WGS, OP_ENU_ECEF, OP_ECEF, OP_WGS84, OP_PAIR, OP_ABOVE, OP_ORIGIN, OP_TRANSFORM, OP_FAR, OP_REPEAT,
+      OP_VALUE_SEM};
     for (int op : C) {if (!dead && anchored) {step(op);}}
   }
   static int long_length(vh::Rng & r)
@@ -664,7 +970,7 @@ struct Runner
       cur_op = OP_SET_ANCHOR;
       conv->setAnchor(G[j]);
       if (anchored) {++n_reanchor;}
-      anchored = true; anc = K[j]; fr = Fk[j]; ++n_anchorings; ++sets_since_unanchored; ++n_ops;
+      anchored = true; anc = K[j]; fr = Fk[j]; ++n_anchorings; ++sets_since_unanchored; ++n_ops; ++epoch;
       long_done = (uint64_t)i + 1;
       trace.resize(long_marker + 1); trace[long_marker].a[0] = (double)long_done;
       const bool got = conv->isAnchored();
@@ -681,6 +987,58 @@ struct Runner
     c.count("long_run_setAnchor_calls", long_done);
     c.maxi("longest_setAnchor_run_without_reset", (double)sets_since_unanchored);
     if (!dead) {check_frame();}
+    all_oracles_once();
+  }
+
+  // cycles of reset() + anchoring (setAnchor / toENU(geodetic) / toENU(wgs84)): 2 x 33000..35000 mutator calls
+  void long_reset_cycle_run()
+  {
+    const int total = RUNNING_ON_VALGRIND ? (int)r.range(150, 300) : (int)r.range(33000, 35000), k = (int)r.range(2, 3);
+    const double alt = draw_anchor(r).alt;          // one altitude for the run (the wgs84 overload keeps the previous one)
+    Anchor K[3]; Frame Fk[3]; GeodeticCoordinates G[3];
+    for (int j = 0; j < k; ++j) {
+      K[j] = next_anchor(); K[j].alt = alt; pool.push_back(K[j]);
+      Fk[j] = make_frame(K[j].lat, K[j].lon, K[j].alt);
+      G[j] = geo(K[j]);
+      rec(OP_RUN_ANCHOR, K[j].lat, K[j].lon, K[j].alt);
+      trace.back().anchored_after = anchored;
+    }
+    rec(OP_LONG_RESET_RUN, 0, total, k);
+    long_marker = trace.size() - 1; long_mode = true;
+    for (int i = 0; i < total && !dead; ++i) {
+      const int j = i % k, how = i == 0 ? 0 : (i / k) % 3;
+      trace.resize(long_marker + 1);
+      cur_op = OP_RESET; cur_p.setZero();
+      conv->reset();
+      anchored = false; ++n_resets; sets_since_unanchored = 0; ++epoch; ++n_ops;
+      if (!c.expect("state.is_anchored", !conv->isAnchored(), "state_flag", P(), W())) {dead = true; break;}
+      Eigen::Vector3d got = Eigen::Vector3d::Zero();
+      if (how == 0) {cur_op = OP_SET_ANCHOR; conv->setAnchor(G[j]);} else if (how == 1) {
+        cur_op = OP_ENU_GEO; got = conv->toENU(G[j]);
+      } else {cur_op = OP_ENU_WGS; got = conv->toENU(static_cast<const WGS84Coordinates &>(G[j]));}
+      anchored = true; anc = K[j]; fr = Fk[j]; ++n_anchorings; ++sets_since_unanchored; ++epoch; ++n_ops;
+      if (how) {++n_conv; ++conv_on_object;}
+      long_done = (uint64_t)i + 1;
+      trace[long_marker].a[0] = (double)long_done;
+      const bool flag = conv->isAnchored();
+      trace[long_marker].anchored_after = flag;
+      if (!c.expect("state.is_anchored", flag, "state_flag", P(), W())) {dead = true; break;}
+      if (how == 2 && conv->getAnchor().altitude != anc.alt) {
+        // a converter that forgets the altitude on reset(): the model adopts what it reports
+        anc.alt = conv->getAnchor().altitude;
+        if (!std::isfinite(anc.alt) || anc.alt < H_MIN || anc.alt > H_MAX) {dead = true; break;}
+        fr = make_frame(anc.lat, anc.lon, anc.alt);
+      }
+      if (how) {c.expect_le("origin.auto_anchor_point_m", got.norm(), 1e-3, "anchor_not_origin", P(), W(got));}
+      const int n1 = i + 1;
+      if (n1 % 2048 == 0 || (n1 >= 127 && n1 <= 129) || (n1 >= 255 && n1 <= 257) || (n1 >= 32767 && n1 <= 32769)) {
+        check_frame();
+        step(OP_ENU_ECEF);
+      }
+    }
+    long_mode = false;
+    c.count("long_run_reset_cycles", long_done);
+    if (!dead && anchored) {check_frame();}
     all_oracles_once();
   }
 
@@ -710,13 +1068,13 @@ struct Runner
     if (!anchored) {
       // un-anchored: only the operations that are defined there
       static const int U[] = {OP_ENU_GEO, OP_ENU_GEO, OP_ENU_GEO, OP_ENU_WGS, OP_ENU_WGS, OP_SET_ANCHOR, OP_SET_ANCHOR,
-        OP_CTOR_ANCHOR, OP_CTOR_DEFAULT, OP_RESET, OP_IS_ANCHORED, OP_TRANSFORM, OP_COPY};
+        OP_CTOR_ANCHOR, OP_CTOR_DEFAULT, OP_RESET, OP_IS_ANCHORED, OP_TRANSFORM, OP_COPY, OP_VALUE_SEM};
       return U[r.range(0, sizeof U / sizeof U[0] - 1)];
     }
     static const int A[] = {OP_ENU_GEO, OP_ENU_GEO, OP_ENU_GEO, OP_ENU_WGS, OP_ENU_WGS, OP_ENU_ECEF, OP_ENU_ECEF, OP_ENU_ECEF,
       OP_ECEF, OP_ECEF, OP_ECEF, OP_WGS84, OP_WGS84, OP_WGS84, OP_PAIR, OP_PAIR, OP_ABOVE, OP_ABOVE, OP_ORIGIN, OP_ORIGIN,
       OP_SET_ANCHOR, OP_SET_ANCHOR, OP_RESET, OP_RESET, OP_SET_ANCHOR_ALIAS, OP_CTOR_ANCHOR, OP_CTOR_DEFAULT,
-      OP_IS_ANCHORED, OP_TRANSFORM, OP_COPY};
+      OP_IS_ANCHORED, OP_TRANSFORM, OP_COPY, OP_VALUE_SEM, OP_VALUE_SEM, OP_FAR, OP_REPEAT, OP_REPEAT};
     return A[r.range(0, sizeof A / sizeof A[0] - 1)];
   }
 
@@ -750,21 +1108,22 @@ struct Runner
         script.push_back(r.coin() ? OP_CTOR_ANCHOR : OP_CTOR_DEFAULT);
     }
     // two indices in every 8191 (a prime, so they spread over the shards) carry a very long run
-    const int long_kind = idx % 8191 == 17 ? 1 : (idx % 8191 == 4113 ? 2 : 0);
+    const int long_kind = idx % 8191 == 17 ? 1 : (idx % 8191 == 4113 ? 2 : (idx % 8191 == 6000 ? 3 : 0));
     const int long_at = long_kind ? (int)r.range(1, 5) : -1;
     if (long_kind == 1) {cat = "history_long_setanchor_run";}
     if (long_kind == 2) {cat = "history_long_conversion_run";}
+    if (long_kind == 3) {cat = "history_long_reset_cycle_run";}
     c.cat(cat);
     size_t si = 0;
     for (int i = 0; i < len && !dead; ++i) {
       if (i == long_at) {
-        if (long_kind == 1) {long_setanchor_run();} else {long_conversion_run();}
+        if (long_kind == 1) {long_setanchor_run();} else if (long_kind == 2) {long_conversion_run();} else {long_reset_cycle_run();}
         if (dead) {break;}
       }
       int op = si < script.size() ? script[si++] : pick_op();
       // scripted conversions need an anchored model; fall back to a legal op otherwise
       bool needs_anchor = op == OP_ENU_ECEF || op == OP_ECEF || op == OP_WGS84 || op == OP_PAIR || op == OP_ABOVE ||
-        op == OP_ORIGIN || op == OP_SET_ANCHOR_ALIAS;
+        op == OP_ORIGIN || op == OP_SET_ANCHOR_ALIAS || op == OP_FAR || op == OP_REPEAT;
       if (needs_anchor && !anchored) {op = pick_op();}
       if (op == OP_COPY && !conv) {op = OP_CTOR_DEFAULT;}
       step(op);
@@ -776,6 +1135,7 @@ struct Runner
     c.maxi("anchorings_in_one_history", (double)n_anchorings);
     c.count("operations", n_ops);
     c.count("conversions", (uint64_t)n_conv);
+    retire_kept();                   // end of the case: every kept result still reads as it did when returned
     c.distinct(hash, nontrivial);
     c.sample(cat, [&]() {return witness();});
   }
